@@ -871,6 +871,15 @@ def no_stateful_closures(ctx, rule: str, consequence: str):
                     if x.func.value.id in bound:
                         bad.append((x, norm(x)[:60]))
                 if isinstance(x, ast.Name) and isinstance(x.ctx, ast.Store) and x.id in nonloc:
+                    # a helper that is only *called* inside the function that defines it lives and dies with that call: its nonlocal
+                    # is a local of the enclosing call.  State is kept between calls only by a closure that escapes (stored, returned,
+                    # handed to someone else).
+                    enc_ = f.parent if f.parent is not None and isinstance(fn, ast.FunctionDef) else None
+                    if enc_ is not None and isinstance(fn, ast.FunctionDef):
+                        refs = [y for y in ast.walk(enc_.node) if isinstance(y, ast.Name) and y.id == fn.name and isinstance(y.ctx, ast.Load)]
+                        pm_ = {id(c_): p_ for p_ in ast.walk(enc_.node) for c_ in ast.iter_child_nodes(p_)}
+                        if refs and all(isinstance(pm_.get(id(y)), ast.Call) and pm_[id(y)].func is y for y in refs):
+                            continue
                     bad.append((x, f"nonlocal {x.id} rebound"))
             for node, what in bad:
                 nm = getattr(fn, "name", "<lambda>")
